@@ -276,6 +276,8 @@ def gen_ss(r, labels=None, vt=None, fields=None, m=None, tiefree=False, dt=None)
         pass
     elif vt == 'REAL':
         dt = r.choice(['float32', 'float64'])
+    elif vt == 'BINARY' and r.random() < .3:
+        dt = r.choice(['uint8', 'uint16', 'uint32', 'uint64', 'bool'])      # r8f: 0/1 samples as samplers hand them over; -1 does not fit these types
     else:
         dt = r.choice(['int8', 'int16', 'int32', 'int64', 'float32', 'float64'])
     if fields is None:
@@ -513,7 +515,7 @@ def history(ctx, r, lines, expect, meta):
                 empty_list = r.random() < .04
                 mixed = r.random() < .4             # sample sets with different data vectors (stack_arrays fills the gaps)
                 for j in range(k):
-                    vt2 = ref.vt if r.random() < .7 else r.choice(['SPIN', 'BINARY'])
+                    vt2 = ref.vt if r.random() < .7 or ss.record.sample.dtype.kind in 'ub' else r.choice(['SPIN', 'BINARY'])   # (-1 cannot be written into an unsigned / bool array)
                     labs2 = r.sample(ref.labels, len(ref.labels))
                     if mism and j == k - 1:
                         labs2 = labs2[:-1] if r.random() < .5 else labs2 + ['other']
